@@ -154,6 +154,7 @@ pub fn world_main(sc: Scenario, trace: bool, finish: Finish) {
     if w.sc.yields.iter().any(|y| y == "clock") {
         crate::fsmon::sim_clock(true);
     }
+    crate::fsmon::set_disk_fault(w.sc.disk_fault.as_ref());
     match w.sc.engine {
         Engine::Pool => pool_world(finish),
         Engine::System | Engine::Legacy => node_world(finish),
@@ -213,6 +214,7 @@ fn node_world(finish: Finish) {
     }
 
     // probe phase: faults off
+    crate::fsmon::stop_new_disk_faults();
     let (probe_req, capacity) = match &sc.probe {
         Probe::None => {
             finish(make_report(End::Completed, vec![], None, false));
